@@ -160,8 +160,65 @@ func (w *zzC06World) eligible(c *zzCoinInfo, scope *waddrmgr.KeyScope, account u
 
 // ZzC06Eligible: findEligibleOutputs for every (scope, account) query and
 // symbolic minconf / height / maturity.
+// coin looks a coin of the world up by its name.
+func (w *zzC06World) coin(name string) *zzCoinInfo {
+	for _, c := range w.coins {
+		if c.name == name {
+			return c
+		}
+	}
+	panic("no coin " + name)
+}
+
+// lockHiddenThenList: the user locks a coin that is temporarily hidden (leased,
+// or spent by an unconfirmed transaction), the locked outpoints are LISTED
+// (which must change nothing), and the temporary state ends (lease released /
+// unconfirmed spender abandoned): the coin is still locked, hence ineligible.
+func (w *zzC06World) lockHiddenThenList() {
+	switch verifrt.Choice(3, "lock-on-hidden-coin") {
+	case 1:
+		c := w.coin("leased")
+		w.w.LockOutpoint(c.op)
+		c.locked = true
+		ops := w.w.LockedOutpoints()
+		verifrt.Assert(len(ops) == 2, "c06-listing-shows-every-locked-outpoint")
+		zzW(w.w.ReleaseOutput(wtxmgr.LockID{1}, c.op))
+		c.leased = false
+		verifrt.Assert(w.w.LockedOutpoint(c.op), "c06-listing-locks-and-releasing-a-lease-keep-the-user-lock")
+		verifrt.Reach("locked-coin-lease-released")
+	case 2:
+		c := w.coin("spent-by-unconfirmed")
+		w.w.LockOutpoint(c.op)
+		c.locked = true
+		ops := w.w.LockedOutpoints()
+		verifrt.Assert(len(ops) == 2, "c06-listing-shows-every-locked-outpoint")
+		// its unconfirmed spender is abandoned
+		zzW(walletdb.Update(w.db, func(dbtx walletdb.ReadWriteTx) error {
+			ns := dbtx.ReadWriteBucket(wtxmgrNamespaceKey)
+			txs, err := w.w.TxStore.UnminedTxs(ns)
+			if err != nil {
+				return err
+			}
+			for _, tx := range txs {
+				if len(tx.TxIn) == 1 && tx.TxIn[0].PreviousOutPoint == c.op {
+					rec, err := wtxmgr.NewTxRecordFromMsgTx(tx, time.Unix(1600000000, 0))
+					if err != nil {
+						return err
+					}
+					return w.w.TxStore.RemoveUnminedTx(ns, rec)
+				}
+			}
+			panic("spender not found")
+		}))
+		c.spent = false
+		verifrt.Assert(w.w.LockedOutpoint(c.op), "c06-listing-locks-and-abandoning-a-spender-keep-the-user-lock")
+		verifrt.Reach("locked-coin-spender-abandoned")
+	}
+}
+
 func ZzC06Eligible() {
 	w := zzNewC06World()
+	w.lockHiddenThenList()
 	minconf := verifrt.I32("minconf")
 	height := verifrt.I32("height")
 	verifrt.Assume(verifrt.And(minconf >= 0, minconf <= 1<<20))
